@@ -434,6 +434,16 @@ def _camel_combo_memos():
                 for (a, b) in sub:
                     t = t.replace("\"" + a + "\"", "\"" + b + "\"")
                 out.append(t)
+    # the same keys spelled with escapes (the same key for encoding/json and for jsonpb)
+    esc = [("\"amount\"", "\"\\u0061mount\""), ("\"basis_points\"", "\"basis\\u005fpoints\""), ("\"basis_points\"", "\"b\\u0061sisPoints\""),
+           ("\"fees_info\"", "\"fees\\u005finfo\""), ("\"pre_actions\"", "\"pre\\u005factions\""), ("\"recipient\"", "\"\\u0072ecipient\""),
+           ("\"orbiter\"", "\"\\u006frbiter\""), ("\"@type\"", "\"\\u0040type\""), ("\"value\"", "\"v\\u0061lue\"")]
+    for fname in ("both", "both-second", "null-fee", "plain"):
+        doc = {"orbiter": {"pre_actions": [{"id": "ACTION_FEE", "attributes": {"@type": FEE_URL, "fees_info": features[fname]}}], "forwarding": fwd}}
+        txt = _j.dumps(doc, separators=(",", ":"))
+        for (a, b) in esc:
+            out.append(txt.replace(a, b))
+        out.append(txt.replace(esc[0][0], esc[0][1]).replace(esc[1][0], esc[1][1]))
     # null action under both spellings
     for a in ("pre_actions", "preActions"):
         out.append(_j.dumps({"orbiter": {a: [None], "forwarding": fwd}}, separators=(",", ":")))
